@@ -18,7 +18,7 @@ LEVEL_TEXT = ('Static decision of the structural necessary conditions of the lis
               'site agrees in arity/keywords with the base class and every shipped override; attribute chains used '
               'on callback arguments exist on the classes actually passed; the notification protocol (once before '
               'the first trial, once per DoGlobalIteration call with exactly that call\'s new trials, once at stop '
-              'with the current result, for every listener) holds on the event traces of the drivers; Process uses '
+              'with the current result, for every listener, on every returning path) holds on the event traces of the drivers; Process uses '
               'the very list AddListener appends to; the console report wires each label to its quantity; no shipped '
               'callback can write an object of the solver state.')
 EXPLANATION = ('Signatures and attribute uses are resolved through the points-to relation (which listener classes can '
